@@ -46,7 +46,7 @@ ResAgrees(spec, log) ==
             \/ /\ log[2] = spec[2] /\ log[3] = spec[3]
                /\ (Len(spec) = 4 => log[4] = spec[4])
 
-\* For raw-word and typed requests the property fixes the reported offset; for strings not.
+\* Only for raw-word requests does the property fix the reported offset.
 Agrees(call, o, e) ==
   /\ o.off = e.off
   /\ D!HasLimit(o.lim) = e.has_limit
@@ -56,8 +56,9 @@ Agrees(call, o, e) ==
        [] o.res[1] = "Ok"   -> e.res[2] = o.res[2]
        [] o.res[1] = "Err"  ->
             /\ e.res[2] = o.res[2]
-            /\ (call[1] # "string" => e.res[3] = o.res[3])
-            /\ (Len(o.res) = 4 => e.res[4] = o.res[4])
+            \* "a failed raw-word request ... reports that offset": only for raw-word requests does the property
+            \* fix what a failure carries; the payload of a failed typed / words / bit64 / string request is free
+            /\ (call[1] = "word" => e.res[3] = o.res[3])
 
 State(c) == [bytes |-> bytes, off |-> c.off, lim |-> c.lim]
 
